@@ -178,6 +178,20 @@ Theorem C03_getitem_absorbed_pinned_partial : forall debug t idx index r,
   getitem_model Pinned debug t idx = Some r.
 Proof. exact getitem_pinned_absorbed_partial. Qed.
 
+(* THE PINNED FRONT END (the code as it stands in the repository), everything that is right about it: for every index in
+   the quantifier it returns the torch result unless (a) a matrix index is the python int -1 on the non-absorbed path,
+   (b) a matrix index is a python int on the absorbed path, (c) the absorbed block has rank >= 2 and stays in place
+   (pinned_ok excludes exactly these; they are the known findings C03-int-m1-matrix, C03-absorbed-int-row,
+   C03-absorbed-rank2-trailing-dim, refuted above / below) *)
+Theorem C03_getitem_pinned_partial : forall debug t idx index r,
+  (2 <= length (tshape t))%nat -> Forall (fun n => (0 < n)%nat) (tshape t) ->
+  spec_expand (length (tshape t)) idx = Some index ->
+  in_quantifier (length (tshape t)) index = true ->
+  pinned_ok (length (tshape t)) index ->
+  torch_index t idx = Some r ->
+  getitem_model Pinned debug t idx = Some r.
+Proof. exact getitem_pinned_partial. Qed.
+
 (* ... and the two pinned defects outside that domain (known findings C03-absorbed-int-row, C03-absorbed-rank2-trailing-dim):
    op[[1,0], 1, [2,3]] on a 2 x 3 x 4 operator has shape (2,1) instead of (2,) (debug on: error);
    op[:, R, C, :] with rank-2 index tensors on a 2 x 2 x 3 x 2 operator raises a view error; the repaired code is right *)
